@@ -894,6 +894,9 @@ def iS : Nat → Stmt → List Item
     iIndent ind ++ ([kwI "repeat", .sp, kwI "with", .sp] ++ (iE v ++ ([.sp, .tk (.p .eq), .sp] ++ (iE a ++ ([.sp] ++
       ((if down then [kwI "down", .sp, kwI "to"] else [kwI "to"]) ++ ([.sp] ++ (iE b ++ ([.tk .nl] ++ (iSs (ind + 1) body ++
         (iIndent ind ++ [kwI "end", .sp, kwI "repeat", .tk .nl])))))))))))
+  | ind, .repeatIn v l body =>
+    iIndent ind ++ ([kwI "repeat", .sp, kwI "with", .sp] ++ (iE v ++ ([.sp, kwI "in", .sp] ++ (iE l ++ ([.tk .nl] ++ (iSs (ind + 1) body ++
+      (iIndent ind ++ [kwI "end", .sp, kwI "repeat", .tk .nl])))))))
   | _, _ => []
 def iSs : Nat → List Stmt → List Item
   | _, [] => []
@@ -1227,7 +1230,17 @@ theorem render_iX : ∀ (s : Stmt), FragX s = true → ∀ (ind : Nat), render (
   | .hilite t, hf, ind => render_iS ind _ (by simpa only [FragX] using hf)
   | .mcall o m as, hf, ind => render_iS ind _ (by simpa only [FragX] using hf)
   | .tell .., hf, _ => by simp [FragX] at hf
-  | .repeatIn .., hf, _ => by simp [FragX] at hf
+  | .repeatIn v l body, hf, ind => by
+    cases v with
+    | var k v =>
+      cases k with
+      | loc =>
+        simp only [FragX, Bool.and_eq_true] at hf
+        obtain ⟨⟨hv, hl⟩, hbody⟩ := hf
+        simp [iS, iE, mS, mE, render_append, render_cons, render_indent, render_iE l hl, render_iXs body hbody (ind + 1),
+          Item.text, kwI, S, render_nil]
+      | _ => simp [FragX] at hf
+    | _ => simp [FragX] at hf
   | .exitRepeat, hf, _ => by simp [FragX] at hf
 theorem render_iXs : ∀ (ss : List Stmt), FragXs ss = true → ∀ (ind : Nat), render (iSs ind ss) = mSs ind ss
   | [], _, _ => rfl
@@ -1266,7 +1279,16 @@ theorem itoks_iX : ∀ (s : Stmt), FragX s = true → ∀ (ind : Nat), itoks (iS
   | .hilite t, hf, ind => by rw [itoks_iS ind _ (by simpa only [FragX] using hf)]; simp [prS, prSW]
   | .mcall o m as, hf, ind => by rw [itoks_iS ind _ (by simpa only [FragX] using hf)]; simp [prS, prSW]
   | .tell .., hf, _ => by simp [FragX] at hf
-  | .repeatIn .., hf, _ => by simp [FragX] at hf
+  | .repeatIn v l body, hf, ind => by
+    cases v with
+    | var k v =>
+      cases k with
+      | loc =>
+        simp only [FragX, Bool.and_eq_true] at hf
+        obtain ⟨⟨hv, hl⟩, hbody⟩ := hf
+        simp [iS, iE, prSW, prE, itoks_append, itoks_indent, itoks, itoks_iE l hl, itoks_iXs body hbody (ind + 1), kwI, kw]
+      | _ => simp [FragX] at hf
+    | _ => simp [FragX] at hf
   | .exitRepeat, hf, _ => by simp [FragX] at hf
 theorem itoks_iXs : ∀ (ss : List Stmt), FragXs ss = true → ∀ (ind : Nat), itoks (iSs ind ss) = prSsW ss
   | [], _, _ => rfl
@@ -1330,7 +1352,19 @@ theorem chain_iX : ∀ (s : Stmt), FragX s = true → ∀ (ind : Nat) (l : List 
   | .hilite t, hf, ind, l, rest => chain_iS ind _ (by simpa only [FragX] using hf) l rest
   | .mcall o m as, hf, ind, l, rest => chain_iS ind _ (by simpa only [FragX] using hf) l rest
   | .tell .., hf, _, _, _ => by simp [FragX] at hf
-  | .repeatIn .., hf, _, _, _ => by simp [FragX] at hf
+  | .repeatIn v l body, hf, ind, lst, rest => by
+    cases v with
+    | var k v =>
+      cases k with
+      | loc =>
+        simp only [FragX, Bool.and_eq_true] at hf
+        obtain ⟨⟨hv, hl⟩, hbody⟩ := hf
+        simp only [iS, iE, List.append_assoc, List.cons_append, List.nil_append, chain_indent]
+        rw [chain_cons_sp _ _ _ (by decide), chain_cons_sp _ _ _ (by decide), chain_cons_sp _ _ _ (by simpa [ItemOk] using hv),
+          chain_cons_sp _ _ _ (by decide), chain_iE_then l hl '\n' safe_nl _ _ (render_nl_head _), chain_nl, chain_iXs body hbody, chain_indent,
+          chain_cons_sp _ _ _ (by decide), chain_cons_nl _ _ _ (by decide)]
+      | _ => simp [FragX] at hf
+    | _ => simp [FragX] at hf
   | .exitRepeat, hf, _, _, _ => by simp [FragX] at hf
 theorem chain_iXs : ∀ (ss : List Stmt), FragXs ss = true → ∀ (ind : Nat) (l : List Item) (rest : List Char),
     Chain (iSs ind ss ++ l) rest = Chain l rest
